@@ -136,6 +136,7 @@ theorem decode_encode (m : Msg) (h : WF m) (rest : Bytes) :
     have h0 : ¬ (acs.length = 0 ∧ encRecSize = 0) := by simp [encRecSize, STRUCT_size, PADDING_BYTES_SIZE]
     have h1 : ¬ (encRecSize < recSize) := by simp [encRecSize, recSize, STRUCT_size, PADDING_BYTES_SIZE]
     simp only [decode, repeatSize, repeatCount, h0, h1, ↓reduceIte]
+    simp only [nonRepeatSize, List.drop_zero]
     rw [decRecs_recBytes acs h]
     rfl
 
